@@ -170,7 +170,9 @@ func runC11(ctx *runCtx) {
 	vers := [][]string{{"13"}, {"13"}, {"12"}, {"13 "}, {""}, nil, {"13", "12"}, {"12", "13"}, {"13, 12"}}
 	k16 := base64.StdEncoding.EncodeToString(randBytes(rng, 16))
 	keys := [][]string{{k16}, {testKey}, {" " + k16 + " "}, nil, {k16, k16}, {base64.StdEncoding.EncodeToString(randBytes(rng, 15))}, {base64.StdEncoding.EncodeToString(randBytes(rng, 17))},
-		{"not base64!!not base64!!"}, {""}, {k16[:22]}, {strings.TrimRight(k16, "=")}}
+		{"not base64!!not base64!!"}, {""}, {k16[:22]}, {strings.TrimRight(k16, "=")},
+		{base64.StdEncoding.EncodeToString(randBytes(rng, 18))}, {base64.StdEncoding.EncodeToString(randBytes(rng, 19))}, {base64.StdEncoding.EncodeToString(randBytes(rng, 24))},
+		{base64.StdEncoding.EncodeToString(randBytes(rng, 32))}, {base64.StdEncoding.EncodeToString(randBytes(rng, 64))}, {base64.StdEncoding.EncodeToString(randBytes(rng, 1))}, {"===="}, {"A==="}}
 	offered := [][]string{nil, {"chat"}, {"chat, superchat"}, {"Chat"}, {"superchat", "chat"}, {"x"}, {""}}
 	supported := [][]string{nil, {"chat"}, {"superchat", "chat"}, {"CHAT"}, {"y", "x"}}
 	var cases []*c11Case
@@ -229,7 +231,14 @@ func runC11(ctx *runCtx) {
 	cases = append(cases, pc)
 	var lines, expect, what []string
 	for _, c := range cases {
-		runC11Case(rep, c, &lines, &expect, &what)
+		func() {
+			defer func() {
+				if r := recover(); r != nil {
+					rep.violate(Violation{Kind: "property", Shape: "panic", What: fmt.Sprintf("%s %v: panic: %v", c.Method, c.Hdr, r), Replay: c})
+				}
+			}()
+			runC11Case(rep, c, &lines, &expect, &what)
+		}()
 		rep.eval(fmt.Sprintf("%s/%d.%d/%v/%v", c.Method, c.Major, c.Minor, c.Hdr, c.Protos))
 		if specUpgrade(c) {
 			rep.count("spec:upgrade")
